@@ -181,6 +181,7 @@ package db
 //@   ensures [storable] forall k int :: 0 <= k && k < len(r0) ==> storable(r0[k])
 //@   ensures [fresh] r0 == nil || fresh(r0)
 //@   trusted-ensures [token] err == nil ==> parsed(r0, r)
+//@   trusted-ensures [nonan] forall k int :: 0 <= k && k < len(r0) ==> no_nan(r0[k])
 //@   loop 1 invariant within(header, r)
 //@   loop 1 invariant suffix_of(body, r)
 //@   loop 1 invariant 0 <= len(res) && len(res) <= cap(res) && (reg(res) == 0 || fresh(res)) && (reg(res) == 0 ==> len(res) == 0 && cap(res) == 0) && ule(off(res), 0)
@@ -283,6 +284,7 @@ package db
 //@   props C11 C03 C13 C05
 //@   pure
 //@   requires KEYOK(key) && RECOK(r)
+//@   trusted-ensures [name] result == equals_fn(key, r)
 //@   ensures [iff] result <==> ALLEQ(key, r, len(key))
 //@   loop 1 invariant 0 <= $i && $i <= len(key) && ALLEQ(key, r, $i)
 //@   loop 1 decreases len(key) - $i
@@ -291,6 +293,7 @@ package db
 //@   props C11 C03 C13 C05
 //@   pure
 //@   requires KEYOK(key) && RECOK(r)
+//@   trusted-ensures [name] result == search_fn(key, r)
 //@   ensures [true] result ==> ALLEQ(key, r, len(key)) || (exists d int := $i :: 0 <= d && d < len(key) && ALLEQ(key, r, d) && d < len(r) && ite(key[d].Desc, KEYCMP(key[d], r[d]) > 0, KEYCMP(key[d], r[d]) < 0))
 //@   ensures [false] !result ==> (exists d int := $i :: 0 <= d && d < len(key) && ALLEQ(key, r, d) && (d >= len(r) || ite(key[d].Desc, KEYCMP(key[d], r[d]) < 0, KEYCMP(key[d], r[d]) > 0)))
 //@   loop 1 invariant 0 <= $i && $i <= len(key) && ALLEQ(key, r, $i)
